@@ -29,6 +29,8 @@ import (
 
 type unit struct {
 	id, pkg, root, src string
+	bl                 map[string]struct{}
+	noclean, stale     bool
 	obs                map[string]string
 }
 
@@ -129,7 +131,21 @@ func main() {
 		if f := strings.Split(line, "\t"); len(f) >= 3 {
 			p := strings.Split(f[2], ";")
 			src, _ := hex.DecodeString(p[2])
-			units = append(units, &unit{id: f[0], pkg: p[0], root: p[1], src: string(src), obs: map[string]string{}})
+			u := &unit{id: f[0], pkg: p[0], root: p[1], src: string(src), obs: map[string]string{}}
+			for _, o := range p[3:] {
+				switch {
+				case strings.HasPrefix(o, "bl="):
+					u.bl = map[string]struct{}{}
+					for _, n := range strings.Split(o[3:], ",") {
+						u.bl[n] = struct{}{}
+					}
+				case o == "nc=1":
+					u.noclean, u.stale = true, true
+				case o == "nc=0":
+					u.stale = true
+				}
+			}
+			units = append(units, u)
 		}
 		if err != nil {
 			break
@@ -142,7 +158,13 @@ func main() {
 		must(os.WriteFile(filepath.Join(dir, "decl.go"), []byte(u.src), 0644))
 		imp := "gen/" + u.pkg
 		fconf := func(dst string) *inspector.Config {
-			return &inspector.Config{Target: inspector.TargetFile, File: filepath.Join(dir, "decl.go"), Import: imp, Destination: filepath.Join(base, dst)}
+			return &inspector.Config{Target: inspector.TargetFile, File: filepath.Join(dir, "decl.go"), Import: imp, Destination: filepath.Join(base, dst),
+				BlackList: u.bl, NoClean: u.noclean}
+		}
+		if u.stale {
+			// a file left over from an earlier run: removed unless NoClean
+			must(os.MkdirAll(filepath.Join(base, u.pkg+"_ins"), 0755))
+			must(os.WriteFile(filepath.Join(base, u.pkg+"_ins", "stale.txt"), []byte("old"), 0644))
 		}
 		func() {
 			defer func() {
@@ -160,6 +182,9 @@ func main() {
 			fmtok := "ok"
 			for n, b := range out {
 				names = append(names, n)
+				if !strings.HasSuffix(n, ".go") {
+					continue
+				}
 				if fb, err := format.Source(b); err != nil || !bytes.Equal(fb, b) {
 					fmtok = "no"
 				}
@@ -172,6 +197,9 @@ func main() {
 			zz.WriteString("package " + u.pkg + "_ins\n\nimport \"github.com/koykov/inspector\"\n\n")
 			for _, n := range names {
 				b := out[n]
+				if !strings.HasSuffix(n, ".go") {
+					continue
+				}
 				if m := regexp.MustCompile(`(?m)^type (\w+Inspector) struct`).FindSubmatch(b); m != nil {
 					zz.WriteString("var _ inspector.Inspector = " + string(m[1]) + "{}\n")
 				}
